@@ -46,6 +46,19 @@ Proof.
   intros Hc. apply ctx_cancelled_child_can_exit. unfold kctx. now rewrite Hc.
 Qed.
 
+(* a child whose Run returns when asked to: on the stop signal / cancellation (the bundled
+   runnables), or possibly earlier and with any result (Free); Never is excluded *)
+Definition good_child (c : cspec) : Prop := c_exit c = OnSignal \/ c_exit c = Free.
+
+Lemma cancelled_good_child_can_exit P s i k :
+  rctx s = true -> nth_error (kids s) i = Some k -> k_pc k = KInRun ->
+  good_child (spec_of P (k_child k)) ->
+  exists s', step P s (LKExit i (k_child k) None) = Some s'.
+Proof.
+  intros Hc Hk Hp [Hs|Hs]; [eapply cancelled_child_can_exit; eassumption|].
+  cbn [step]. rewrite Hk, Hp, N.eqb_refl. unfold exit_ok. rewrite Hs. cbn. eauto.
+Qed.
+
 (* a launched child goroutine can always call Run *)
 Lemma launched_child_can_run P s i k :
   nth_error (kids s) i = Some k -> k_pc k = KLaunched ->
